@@ -233,11 +233,7 @@ def handle (s : DState) : List String → DState × String
       match startAny s.circ s.faults cal now m with
       | some c0 =>
         -- (the stop of a failed start happens on the same storage: with its faults, if any)
-        let c := if s.faults != {} then
-            (match c0.stopBeginF s.faults tstop with
-             | (c1, true) => c1
-             | (c1, false) => c1.stopEnd tstop true)
-          else c0.stop tstop
+        let c := if s.faults != {} then (c0.stopBeginF s.faults tstop).stopEnd tstop true else c0.stop tstop
         ({ s with circ := c }, renderCirc c)
       | none => (s, "err not-modelled")
     | _, _, _, _ => (s, "bad-op")
@@ -296,9 +292,8 @@ def handle (s : DState) : List String → DState × String
     | some t =>
       if s.circ.phase != .running && s.circ.phase != .aborted && s.circ.phase != .failed then (s, "err not-possible")
       else
-        let (c1, raised) := s.circ.stopBeginF s.faults t
-        if raised then ({ s with circ := c1 }, "raised " ++ renderCirc c1)
-        else let c := c1.stopEnd t true; ({ s with circ := c }, "done " ++ renderCirc c)
+        let c := (s.circ.stopBeginF s.faults t).stopEnd t true
+        ({ s with circ := c }, "done " ++ renderCirc c)
     | none => (s, "bad-op")
   | ["stop", t] =>
     match t.toNat? with
